@@ -251,6 +251,7 @@ def _thread_error_returns(fd, nb, off, dest, target):
         for x in region:
             mapping[x] = len(fd["blocks"])
             fd["blocks"].append(copy.deepcopy(fd["blocks"][x]))
+            fd["blocks"][-1]["clone"] = True
         for x in region:
             cb = fd["blocks"][mapping[x]]
             _retarget(cb["term"], mapping)
@@ -265,6 +266,10 @@ def inline_new_helpers(bodies, known):
     """bodies: path -> facts dict.  Inline every call to a plain function that is not in `known`."""
     by_path = bodies
     inlined = []
+    threaded = set()
+    for p, fd in by_path.items():
+        if fd.get("blocks") and thread_local_variants(fd):
+            threaded.add(p)
 
     def inlinable(p):
         g = by_path.get(p)
@@ -297,6 +302,12 @@ def inline_new_helpers(bodies, known):
                 bb += 1
         if not changed:
             break
+    # threading leaves blocks behind that nothing leads to any more (the joined originals, undecided clones): blank
+    # them, so that no rule reads a return or a store off a block that cannot execute
+    for p in {p for (p, _) in inlined} | threaded:
+        fd = by_path.get(p)
+        if fd is not None:
+            _prune_unreachable(fd)
     # helpers whose every call site was inlined are gone from the program
     still_called = set()
     for p, fd in by_path.items():
@@ -332,7 +343,16 @@ def _agg_variant(blk, upto, local):
                 pay = None
                 if rv["ops"] and rv["ops"][0]["k"] in ("move", "copy") and not rv["ops"][0]["place"]["proj"]:
                     pay = _agg_variant(blk, i, rv["ops"][0]["place"]["local"])
-                return (rv["variant"], pay)
+                op = None
+                if len(rv["ops"]) == 1 and (rv["ops"][0]["k"] == "const" or (rv["ops"][0]["k"] in ("move", "copy") and not rv["ops"][0]["place"]["proj"])):
+                    op = rv["ops"][0]
+                    # the operand must still hold that value at the end of the block
+                    if op["k"] != "const":
+                        for st2 in blk["stmts"][i + 1:]:
+                            if st2["s"] == "assign" and st2["place"]["local"] == op["place"]["local"]:
+                                op = None
+                                break
+                return (rv["variant"], pay, op)
             return None
     return None
 
@@ -352,7 +372,7 @@ def _thread_variant_returns(fd, nb, off, dest, target):
                 last = i
         if last is not None:
             kv = _agg_variant(b, last + 1, off)
-            if kv is not None and kv[1] is not None or (kv is not None and kv[0] in ("Err",)):
+            if kv is not None:
                 sites.append((j, kv))
     if len(sites) < 2 and not (len(sites) == 1):
         return
@@ -377,6 +397,7 @@ def _thread_variant_returns(fd, nb, off, dest, target):
         for x in region:
             mapping[x] = len(fd["blocks"])
             fd["blocks"].append(copy.deepcopy(fd["blocks"][x]))
+            fd["blocks"][-1]["clone"] = True
         exits = []
         for x in region:
             cb = fd["blocks"][mapping[x]]
@@ -395,18 +416,25 @@ def _thread_variant_returns(fd, nb, off, dest, target):
         b["term"]["target"] = mapping[b["term"]["target"]]
 
 
-def _clone_chain(fd, start, known):
-    """Clone blocks from `start` while every decision is determined by `known` (local -> (variant, payload)).
-    Returns the index of the first cloned block, or None if no switch could be decided."""
+def _clone_chain(fd, start, known, avoid=None, assigned=None, arm=False):
+    """Clone blocks from `start` while every decision is determined by `known` (local -> (variant, payload, operand)).
+    Returns the index of the first cloned block, or None if no switch could be decided.  Blocks in `avoid` (loop
+    headers) are never cloned: peeling a header's test gives the loop a second entry."""
     known = dict(known)
     consts = {}
     head = None
     prev = None
     decided = 0
     cur = start
+    assigned = set(assigned or ())
+    subst = 0
+    trail = []
     for _ in range(10):
+        if avoid and cur in avoid:
+            break
         blk = fd["blocks"][cur]
         nbk = copy.deepcopy(blk)
+        nbk["clone"] = True
         idx = len(fd["blocks"])
         fd["blocks"].append(nbk)
         if head is None:
@@ -414,6 +442,7 @@ def _clone_chain(fd, start, known):
         if prev is not None:
             pt = fd["blocks"][prev]["term"]
             pt["target"] = idx
+        trail.append([idx, cur, prev, subst])
         for st in nbk["stmts"]:
             if st["s"] != "assign" or st["place"]["proj"]:
                 continue
@@ -421,8 +450,14 @@ def _clone_chain(fd, start, known):
             rv = st["rv"]
             known.pop(x, None)
             consts.pop(x, None)
+            assigned.add(x)
             if rv["r"] == "discriminant" and not rv["place"]["proj"] and rv["place"]["local"] in known:
                 consts[x] = _DISCR[known[rv["place"]["local"]][0]]
+            elif rv["r"] == "aggregate" and rv.get("agg") == "adt" and rv.get("variant") in _DISCR:
+                # a value re-wrapped on the way (`Ok(v) => Ok(v)`): the new local's variant is known as well
+                op = rv["ops"][0] if len(rv.get("ops", [])) == 1 and (rv["ops"][0]["k"] == "const" or not rv["ops"][0]["place"]["proj"]) else None
+                pay = known.get(op["place"]["local"]) if op is not None and op["k"] != "const" else None
+                known[x] = (rv["variant"], pay, op)
             elif rv["r"] == "use" and rv["op"]["k"] in ("move", "copy"):
                 pl = rv["op"]["place"]
                 if not pl["proj"] and pl["local"] in known:
@@ -433,6 +468,15 @@ def _clone_chain(fd, start, known):
                     kv = known[pl["local"]]
                     if kv[0] == pl["proj"][0]["variant"] and kv[1] is not None:
                         known[x] = kv[1]
+                    # the payload itself, when the value was built from a plain operand that still holds it
+                    if kv[0] == pl["proj"][0]["variant"] and len(kv) > 2 and kv[2] is not None:
+                        op = kv[2]
+                        if op["k"] == "const":
+                            rv["op"] = copy.deepcopy(op)
+                            subst += 1
+                        elif op["place"]["local"] not in assigned or op["place"]["local"] == x:
+                            rv["op"] = {"k": "copy", "place": copy.deepcopy(op["place"])}
+                            subst += 1
         t = nbk["term"]
         if t["t"] == "goto":
             prev = idx
@@ -441,7 +485,8 @@ def _clone_chain(fd, start, known):
         if t["t"] == "call" and _is_branch(t) and t["args"] and t["args"][0]["k"] in ("move", "copy") and not t["args"][0]["place"]["proj"] \
                 and t["args"][0]["place"]["local"] in known and t.get("target") is not None and not t["dest"]["proj"]:
             kv = known[t["args"][0]["place"]["local"]]
-            known[t["dest"]["local"]] = ("Continue", kv[1]) if kv[0] in ("Ok", "Some") else ("Break", None)
+            known[t["dest"]["local"]] = ("Continue", kv[1], kv[2] if len(kv) > 2 else None) if kv[0] in ("Ok", "Some") else ("Break", None, None)
+            assigned.add(t["dest"]["local"])
             prev = idx
             cur = t["target"]
             continue
@@ -458,7 +503,7 @@ def _clone_chain(fd, start, known):
                 # continue threading through the chosen arm
                 prev_switch = idx
                 cur = tgt
-                sub = _clone_chain(fd, cur, known)
+                sub = _clone_chain(fd, cur, known, avoid, assigned, arm=True)
                 if sub is not None:
                     if val in arms:
                         nbk["term"]["arms"] = [[val, sub]]
@@ -466,7 +511,134 @@ def _clone_chain(fd, start, known):
                         nbk["term"]["otherwise"] = sub
             return head if decided else None
         break
-    return head if decided else None
+    if decided:
+        return head
+    if not arm:
+        return None
+    # the arm a decision led to: its own copy is worth keeping as far as the payload it unpacks became a plain operand
+    # there; trailing copies without a substitution - and any copy that would duplicate a test or a call site - are
+    # given back (the path rejoins the original there)
+    while trail:
+        idx, orig, pv, before = trail[-1]
+        tk = fd["blocks"][idx]["term"]["t"]
+        if subst > before and tk in ("goto", "return"):
+            break
+        subst = before
+        trail.pop()
+        if pv is not None:
+            fd["blocks"][pv]["term"]["target"] = orig
+    return head if trail else None
+
+
+def _loop_headers(fd):
+    """Targets of retreating edges of a depth-first walk from the entry."""
+    heads, state = set(), {}
+    stack = [(0, iter(_succs_of(fd["blocks"][0]["term"])))]
+    state[0] = 1
+    while stack:
+        x, it = stack[-1]
+        nxt = next(it, None)
+        if nxt is None:
+            state[x] = 2
+            stack.pop()
+            continue
+        if state.get(nxt) == 1:
+            heads.add(nxt)
+        elif nxt not in state:
+            state[nxt] = 1
+            stack.append((nxt, iter(_succs_of(fd["blocks"][nxt]["term"]))))
+    return heads
+
+
+def _split_payload_prefixes(fd):
+    """A block that unpacks a payload (`x = (r as Ok).0`, then plain copies of x) and goes on to compute and test
+    something is split after the copies: the unpacking can then get its own copy per known value while the test
+    stays single."""
+    def is_payload(st):
+        if st["s"] != "assign" or st["place"]["proj"] or st["rv"]["r"] != "use" or st["rv"]["op"]["k"] not in ("copy", "move"):
+            return False
+        pj = st["rv"]["op"]["place"]["proj"]
+        return len(pj) == 2 and pj[0]["p"] == "downcast" and pj[1]["p"] == "field" and pj[1].get("name") == "0"
+    for j in range(len(fd["blocks"])):
+        b = fd["blocks"][j]
+        if b["cleanup"] or b["term"]["t"] in ("goto", "return", "unreachable"):
+            continue
+        k, tainted, seen_payload = 0, set(), False
+        for i, st in enumerate(b["stmts"]):
+            if st["s"] != "assign":
+                if seen_payload:
+                    k = i + 1 if k == i else k
+                continue
+            if not seen_payload:
+                if is_payload(st):
+                    seen_payload = True
+                    tainted.add(st["place"]["local"])
+                    k = i + 1
+                    continue
+                break
+            rv = st["rv"]
+            if not st["place"]["proj"] and rv["r"] in ("use", "cast") and rv["op"]["k"] in ("copy", "move") and not rv["op"]["place"]["proj"] and rv["op"]["place"]["local"] in tainted:
+                tainted.add(st["place"]["local"])
+                k = i + 1
+                continue
+            break
+        if not seen_payload or k >= len(b["stmts"]) and b["term"]["t"] not in ("switch",):
+            continue
+        rest = {"stmts": b["stmts"][k:], "term": b["term"], "cleanup": False}
+        fd["blocks"].append(rest)
+        b["stmts"] = b["stmts"][:k]
+        b["term"] = {"t": "goto", "target": len(fd["blocks"]) - 1, "span": rest["term"]["span"]}
+
+
+def thread_local_variants(fd):
+    """Jump threading inside one function: `let r = if c { Ok(a) } else { Err(b) }; match r { Ok(v) => .., Err(e) => .. }`
+    joins both values before it tests them; in the joined graph the Ok arm is not dominated by `c`.  Every block that
+    assigns a constant variant to a local and goes on to a test of that local gets its own copy of the way there,
+    with the decision already taken.  Returns True when something was threaded."""
+    _split_payload_prefixes(fd)
+    n0 = len(fd["blocks"])
+    heads = _loop_headers(fd)
+    did = False
+    for j in range(n0):
+        b = fd["blocks"][j]
+        if b["cleanup"] or b["term"]["t"] != "goto" or len(fd["blocks"]) > 3 * n0 + 100:
+            continue
+        cands = {}
+        for i, st in enumerate(b["stmts"]):
+            if st["s"] == "assign" and not st["place"]["proj"]:
+                rv = st["rv"]
+                if rv["r"] == "aggregate" and rv.get("agg") == "adt" and rv.get("variant") in _DISCR and st["place"]["local"] != 0:
+                    cands[st["place"]["local"]] = i
+                else:
+                    cands.pop(st["place"]["local"], None)
+        for L, i in cands.items():
+            kv = _agg_variant(b, i + 1, L)
+            if kv is None:
+                continue
+            later = {st["place"]["local"] for st in b["stmts"][i + 1:] if st["s"] == "assign"}
+            head = _clone_chain(fd, b["term"]["target"], {L: kv}, heads, later)
+            if head is not None:
+                b["term"]["target"] = head
+                did = True
+                break
+    return did
+
+
+def _prune_unreachable(fd):
+    seen, work = set(), [0]
+    while work:
+        x = work.pop()
+        if x in seen:
+            continue
+        seen.add(x)
+        t = fd["blocks"][x]["term"]
+        work.extend(_succs_of(t))
+        if isinstance(t.get("unwind"), int):
+            work.append(t["unwind"])
+    for i, b in enumerate(fd["blocks"]):
+        if i not in seen and not b["cleanup"]:
+            b["stmts"] = []
+            b["term"] = {"t": "unreachable", "span": b["term"]["span"]}
 
 
 def _dead_block(fd, span):
